@@ -583,6 +583,8 @@ def vf_abs(x):
 
 def vf_isinstance(obj, cls):
     def one(c):
+        if c is vf_str:
+            c = str
         if c is vf_float:
             c = float
         elif builtins.isinstance(c, type) and builtins.issubclass(c, vf_int) and c.__name__.startswith(("vf_int", "_vf_int")):
@@ -595,11 +597,16 @@ def vf_isinstance(obj, cls):
             return c in (bool, int)
         if isinstance(obj, SComplex):
             return c is complex
+        if type(obj).__name__ in ("SymStr", "_JsonText"):
+            return c is str
         return builtins.isinstance(obj, c)
 
     if builtins.isinstance(cls, tuple):
         return any(one(c) for c in cls)
     return one(cls)
+
+
+vf_str_type = str
 
 
 def vf_str(x=""):
